@@ -618,6 +618,9 @@ var wsOneshots = []string{
 	`{"query":7}`,
 	wsPayload("subscription { tick(n: 1) }", "", nil),
 	wsPayload("subscription { tick(n: 0) }", "", nil),
+	// round 5: operations whose resolvers panic / fail at different response paths (fail.go)
+	wsPayload("{ a: fail k }", "", nil),
+	wsPayload("query E($i: Int) { b: fail(how: \"err\", m: \"ws\") nodes { id fail(at: $i) } }", "E", []kvp{{"i", `1`}}),
 }
 
 func wsPre(s *wsSession) *wsSession {
@@ -737,7 +740,7 @@ func randomWsSession(g *gen) *wsSession {
 			p := wsOneshots[g.pick(len(wsOneshots))]
 			if g.chance(25) {
 				mt := mergeTexts()
-				p = wsPayload(mt[g.pick(len(mt))], "", varSets[len(varSets)-1-g.pick(5)])
+				p = wsPayload(mt[g.pick(len(mt))], "", varSets[mergeVarFirst+4-g.pick(5)])
 			}
 			id := newID()
 			if g.chance(25) { // a query whose resolver reports through the same side channel
